@@ -40,11 +40,32 @@ pub fn max_digit_run(v: &str) -> usize {
     best
 }
 
+/// Numbers at the edges of machine representations: 2^k + d and 10^k + d.
+/// (Packed keys, narrowing casts and digit-count shortcuts break exactly
+/// there and nowhere else.)
+pub fn boundary_num(r: &mut Rng) -> String {
+    let d = r.below(7) as i128 - 3;
+    let base: i128 = if r.chance(3, 4) {
+        let k = *r.pick(&[7u32, 8, 10, 15, 16, 20, 21, 24, 31, 32, 40, 48, 53, 56, 59]);
+        1i128 << k
+    } else {
+        10i128.pow(*r.pick(&[2u32, 3, 4, 6, 9, 10, 12, 15, 17]))
+    };
+    let v = (base + d).max(0);
+    let s = v.to_string();
+    if s.len() > 18 {
+        "999999999999999999".to_string()
+    } else {
+        s
+    }
+}
+
 fn small_num(r: &mut Rng) -> String {
-    match r.below(10) {
+    match r.below(12) {
         0..=5 => r.below(4).to_string(),
         6 | 7 => r.below(30).to_string(),
         8 => NUMS[r.below(NUMS.len())].to_string(),
+        9 => boundary_num(r),
         _ => r.below(1000).to_string(),
     }
 }
